@@ -20,4 +20,44 @@ def rOr (a b : Res Bool) : Res Bool := a.bind fun x => if x then .ok true else b
 def rNot (a : Res Bool) : Res Bool := a.bind fun x => .ok (!x)
 def rIte {α} (c : Res Bool) (t e : Res α) : Res α := c.bind fun x => if x then t else e
 
+/-! ## targets of `tools/extract_tables.py`: chains of `str::replace` calls -/
+
+/-- one `.replace(pattern, text)` call -/
+inductive Step where
+  | str (pat : String) (to : String)          -- pattern is a `&str`: left to right, non-overlapping matches
+  | chars (pats : List Char) (to : String)    -- pattern is a `char` or `[char; N]`: every such character
+  deriving Repr
+
+/-- the quick-xml function a writer helper applies first -/
+inductive Base where
+  | escape | partialEscape
+  deriving Repr, DecidableEq
+
+structure Pipeline where
+  base : Base
+  steps : List Step
+  deriving Repr
+
+/-- `str::replace(&str, &str)`; `skip` = characters of the current match still to be consumed -/
+def replaceGo (pat to : List Char) : Nat → List Char → List Char
+  | _, [] => []
+  | skip + 1, _ :: r => replaceGo pat to skip r
+  | 0, c :: r =>
+    if pat ≠ [] ∧ pat.isPrefixOf (c :: r) then to ++ replaceGo pat to (pat.length - 1) r
+    else c :: replaceGo pat to 0 r
+
+/-- `str::replace(char | [char; N], &str)` -/
+def replaceChars (pats : List Char) (to : List Char) (s : List Char) : List Char :=
+  s.flatMap (fun c => if pats.contains c then to else [c])
+
+def Step.apply : Step → List Char → List Char
+  | .str pat to, s => replaceGo pat.toList to.toList 0 s
+  | .chars pats to, s => replaceChars pats to.toList s
+
+def applySteps (steps : List Step) (s : List Char) : List Char := steps.foldl (fun acc st => st.apply acc) s
+
+/-- a writer helper: the quick-xml function given for its base, then the replace chain -/
+def Pipeline.run (esc pesc : List Char → List Char) (p : Pipeline) (s : List Char) : List Char :=
+  applySteps p.steps (match p.base with | .escape => esc s | .partialEscape => pesc s)
+
 end Umya.Gen
